@@ -546,7 +546,7 @@ class TBRMatchedMarkets:
     tmp_diag = TBRMMDiagnostics(np.random.normal(range(100)), self.parameters)
     tmp_diag.x = list(range(len(tmp_diag.y)))
     tmp_score = TBRMMScore(tmp_diag)
-    tmp_score.score = tmp_score.score._replace(
+    tmp_score.score = tbrmmscore.Scoring(
         corr_test=0,
         aa_test=0,
         bb_test=0,
